@@ -1,2 +1,62 @@
-(* Props/C11.v — placeholder, theorems added in a later commit *)
-From NIR Require Import Model.Graph.
+(* Props/C11.v — from_list builds exactly the sequential path graph. *)
+From NIR Require Import Model.Graph Proofs.FromListProofs.
+
+(* each given node, in the given order *)
+Theorem c11_order : forall ns earlier, map snd (name_nodes ns earlier) = ns.
+Proof. exact name_nodes_order. Qed.
+
+(* naming scheme: lower-cased class name, suffix _k for the k-th repetition (k >= 1) *)
+Theorem c11_naming_scheme : forall ns earlier i n, nth_error ns i = Some n ->
+  exists nm, nth_error (map fst (name_nodes ns earlier)) i = Some nm /\
+    let base := lower (kind_name (node_kind n)) in
+    let k := count_occ_str base (earlier ++ map (fun x => lower (kind_name (node_kind x))) (firstn i ns)) in
+    nm = match k with O => base | _ => (base ++ "_" ++ dec k)%string end.
+Proof. exact name_nodes_scheme. Qed.
+
+(* names are pairwise distinct — for every length and repetition pattern (needs: decimal rendering is
+   injective, and no lower-cased class name of the model's kinds contains '_', checked by computation) *)
+Theorem c11_names_distinct : forall ns, NoDup (map fst (name_nodes ns [])).
+Proof. exact name_nodes_NoDup. Qed.
+
+Theorem c11_decimal_injective : forall a b, dec a = dec b -> a = b.
+Proof. exact dec_inj. Qed.
+
+Theorem c11_class_names_have_no_underscore : forall k, In k all_kinds ->
+  forall i, get i (lower (kind_name k)) <> Some "_"%char.
+Proof. exact base_names_no_underscore. Qed.
+
+(* edges are exactly the chain of consecutive names *)
+Theorem c11_edges_chain : forall l, zip_next l = combine l (tl l).
+Proof. exact zip_next_chain. Qed.
+
+(* the whole graph: given nodes in order, an Input in front carrying the first node's input type unless
+   the first node is an Input, an Output behind carrying the last node's output type unless the last
+   is an Output, chain edges — for every admissible sequence *)
+Theorem c11_from_list : forall ns first rest, ns = first :: rest ->
+  (forall n, In n ns -> is_graph n = false) ->
+  (forall n, In n rest -> is_input n = false) ->
+  (forall n, In n (removelast ns) -> is_output n = false) ->
+  forall g, from_list ns = Ok g ->
+  exists pre post ch,
+    g = mk_graph ch (zip_next (map fst ch)) (VDict []) /\
+    ch = pre ++ name_nodes ns [] ++ post /\
+    (is_input first = true -> pre = []) /\
+    (is_input first = false -> exists i, pre = [("input", i)] /\ input_of_ty (child_tin first) = Ok i) /\
+    (is_output (last ns first) = true -> post = []) /\
+    (is_output (last ns first) = false -> exists o, post = [("output", o)] /\
+                                           output_of_ty (child_tout (last ns first)) = Ok o).
+Proof. exact from_list_structure. Qed.
+
+(* non-vacuity: IF, I, IF, LIF -> names if, i, if_1, lif *)
+Example c11_example :
+  let mk k := Leaf k [] (Some [("input", TArr [2])]) (Some [("output", TArr [2])]) in
+  map fst (name_nodes [mk KIF; mk KI; mk KIF; mk KLIF] []) = ["if"; "i"; "if_1"; "lif"].
+Proof. reflexivity. Qed.
+
+Print Assumptions c11_order.
+Print Assumptions c11_naming_scheme.
+Print Assumptions c11_names_distinct.
+Print Assumptions c11_decimal_injective.
+Print Assumptions c11_class_names_have_no_underscore.
+Print Assumptions c11_edges_chain.
+Print Assumptions c11_from_list.
